@@ -588,6 +588,7 @@ def run(ctx):
     from .flushall import rule_flushall
     ctx.rule('C01.FLUSHALL', lambda: rule_flushall(ctx, 'C01'), 3)
     ctx.rule('C01.PREFIXSCAN', lambda: c04.rule_storage_prefix(ctx, 'C01'), 2)
+    ctx.rule('C01.STATEMOVE', lambda: c04.rule_state_moves_with_commit(ctx, 'C01'), 2)
     # a chain reached through reorganisations is still 'any valid chain indexed up to h'
     from . import c03 as _c03all
     _c03all.run(ctx)
